@@ -74,22 +74,57 @@ pub mod sync {
                 c.q.push_back(t);
                 Ok(())
             }
-            /// Model: a send on a full queue never completes (the path is pruned by the executor).
-            pub async fn send(&self, t: T) -> Result<(), error::SendError<T>> {
-                match self.try_send(t) {
-                    Ok(()) => Ok(()),
-                    Err(error::TrySendError::Closed(t)) => Err(error::SendError(t)),
-                    Err(error::TrySendError::Full(_)) => core::future::pending().await,
-                }
+            /// Model: a send on a full queue never completes. The returned value is a `Future` (for code
+            /// that `.await`s it) and has an inherent `now()` (for the de-sugared build, see
+            /// /verif/gen/deasync.py, where `x.await` is written `x.now()`).
+            pub fn send(&self, t: T) -> SendFut<'_, T> {
+                SendFut { tx: self, t: Some(t) }
             }
             pub fn is_closed(&self) -> bool { !self.chan.borrow().rx_alive }
+        }
+        pub struct SendFut<'a, T> { tx: &'a Sender<T>, t: Option<T> }
+        impl<'a, T> SendFut<'a, T> {
+            pub fn now(mut self) -> Result<(), error::SendError<T>> {
+                match self.tx.try_send(self.t.take().expect("polled after completion")) {
+                    Ok(()) => Ok(()),
+                    Err(error::TrySendError::Closed(t)) => Err(error::SendError(t)),
+                    Err(error::TrySendError::Full(_)) => crate::never_completes(),
+                }
+            }
+        }
+        impl<'a, T> Unpin for SendFut<'a, T> {}
+        impl<'a, T> core::future::Future for SendFut<'a, T> {
+            type Output = Result<(), error::SendError<T>>;
+            fn poll(mut self: core::pin::Pin<&mut Self>, _: &mut core::task::Context<'_>) -> core::task::Poll<Self::Output> {
+                let t = self.t.take().expect("polled after completion");
+                match self.tx.try_send(t) {
+                    Ok(()) => core::task::Poll::Ready(Ok(())),
+                    Err(error::TrySendError::Closed(t)) => core::task::Poll::Ready(Err(error::SendError(t))),
+                    Err(error::TrySendError::Full(t)) => {
+                        self.t = Some(t);
+                        core::task::Poll::Pending
+                    }
+                }
+            }
+        }
+        pub struct RecvFut<'a, T> { rx: &'a mut Receiver<T> }
+        impl<'a, T> RecvFut<'a, T> {
+            pub fn now(self) -> Option<T> {
+                match self.rx.try_recv() { Ok(t) => Some(t), Err(_) => crate::never_completes() }
+            }
+        }
+        impl<'a, T> core::future::Future for RecvFut<'a, T> {
+            type Output = Option<T>;
+            fn poll(mut self: core::pin::Pin<&mut Self>, _: &mut core::task::Context<'_>) -> core::task::Poll<Self::Output> {
+                match self.rx.try_recv() { Ok(t) => core::task::Poll::Ready(Some(t)), Err(_) => core::task::Poll::Pending }
+            }
         }
         impl<T> Receiver<T> {
             pub fn try_recv(&mut self) -> Result<T, error::TryRecvError> {
                 self.chan.borrow_mut().q.pop_front().ok_or(error::TryRecvError::Empty)
             }
-            pub async fn recv(&mut self) -> Option<T> {
-                match self.try_recv() { Ok(t) => Some(t), Err(_) => core::future::pending().await }
+            pub fn recv(&mut self) -> RecvFut<'_, T> {
+                RecvFut { rx: self }
             }
             pub fn close(&mut self) { self.chan.borrow_mut().rx_alive = false; }
             pub fn len(&self) -> usize { self.chan.borrow().q.len() }
@@ -147,6 +182,16 @@ pub mod sync {
                 }
             }
         }
+        impl<T> Receiver<T> {
+            /// de-sugared `rx.await`
+            pub fn now(mut self) -> Result<T, error::RecvError> {
+                match self.try_recv() {
+                    Ok(t) => Ok(t),
+                    Err(error::TryRecvError::Closed) => Err(error::RecvError(())),
+                    Err(error::TryRecvError::Empty) => crate::never_completes(),
+                }
+            }
+        }
         impl<T> core::future::Future for Receiver<T> {
             type Output = Result<T, error::RecvError>;
             fn poll(mut self: core::pin::Pin<&mut Self>, _: &mut core::task::Context<'_>) -> core::task::Poll<Self::Output> {
@@ -190,7 +235,15 @@ pub mod time {
     pub async fn timeout<F: core::future::Future>(_: Duration, f: F) -> Result<F::Output, error::Elapsed> {
         Ok(f.await)
     }
-    pub async fn sleep(_: Duration) { panic!("tokio::time::sleep is not modelled") }
+    /// A spawned timer task is run by the harness when it decides that the timer fires, so the sleep
+    /// itself takes no model time: ready at once, as a future and via `now()`.
+    pub fn sleep(_: Duration) -> Sleep { Sleep }
+    pub struct Sleep;
+    impl Sleep { pub fn now(self) {} }
+    impl core::future::Future for Sleep {
+        type Output = ();
+        fn poll(self: core::pin::Pin<&mut Self>, _: &mut core::task::Context<'_>) -> core::task::Poll<()> { core::task::Poll::Ready(()) }
+    }
 }
 
 pub mod io {
@@ -221,10 +274,85 @@ pub mod io {
 }
 
 pub mod task {
-    pub struct JoinHandle<T>(core::marker::PhantomData<T>);
+    pub struct JoinHandle<T>(pub(crate) core::marker::PhantomData<T>);
 }
-pub fn spawn<F: core::future::Future>(_f: F) -> task::JoinHandle<F::Output> {
-    panic!("tokio::spawn is not modelled")
+/// "This operation never completes": under Kani the path is pruned, natively it is a loud failure.
+pub fn never_completes() -> ! {
+    #[cfg(kani)]
+    kani::assume(false);
+    panic!("tokio model: operation would block forever (full/empty model queue)")
+}
+
+/// `await` of the de-sugared build: `x.await` is written `x.now()`. Model futures have an inherent
+/// `now()` that performs the operation directly; every other value (the result of a former `async fn`
+/// of worterbuch, which after the de-sugaring is a plain function) is returned unchanged.
+pub trait Now: Sized {
+    fn now(self) -> Self {
+        self
+    }
+}
+impl<T> Now for T {}
+
+/// `spawn` registers the task; it runs only when the harness scheduler says so
+/// (`model_tasks::run_next`). Tasks are plain closures after the de-sugaring.
+pub mod model_tasks {
+    static mut TASKS: [Option<Box<dyn FnOnce()>>; 4] = [None, None, None, None];
+    static mut SPAWNED: usize = 0;
+    pub fn register(f: Box<dyn FnOnce()>) {
+        unsafe {
+            let tasks = &mut *core::ptr::addr_of_mut!(TASKS);
+            let mut i = 0;
+            while i < 4 {
+                if tasks[i].is_none() {
+                    tasks[i] = Some(f);
+                    SPAWNED += 1;
+                    return;
+                }
+                i += 1;
+            }
+        }
+        crate::never_completes()
+    }
+    /// number of tasks spawned so far
+    pub fn spawned() -> usize {
+        unsafe { SPAWNED }
+    }
+    /// number of registered tasks that have not run yet
+    pub fn pending() -> usize {
+        unsafe {
+            let tasks = &*core::ptr::addr_of!(TASKS);
+            let mut n = 0;
+            let mut i = 0;
+            while i < 4 {
+                if tasks[i].is_some() {
+                    n += 1;
+                }
+                i += 1;
+            }
+            n
+        }
+    }
+    /// run the oldest pending task to completion; false if there is none
+    pub fn run_next() -> bool {
+        unsafe {
+            let tasks = &mut *core::ptr::addr_of_mut!(TASKS);
+            let mut i = 0;
+            while i < 4 {
+                if let Some(f) = tasks[i].take() {
+                    f();
+                    return true;
+                }
+                i += 1;
+            }
+        }
+        false
+    }
+}
+pub fn spawn<F: FnOnce() -> R + 'static, R>(f: F) -> task::JoinHandle<R> {
+    model_tasks::register(Box::new(move || {
+        f();
+    }));
+    task::JoinHandle(core::marker::PhantomData)
 }
 
 #[macro_export]
